@@ -11,6 +11,8 @@ LEAN_MODULES = LEAN_MODULES + ['AsynqModel.Theorems.C03e']
 THEOREMS = THEOREMS + ["AsynqModel.Core." + n for n in ['no_stuck_wellscoped', 'no_stuck_wellscoped_silent', 'no_stuck_wellscoped_iff', 'no_stuck_wellscoped_full', 'no_syncret_stuck', 'oracle_needed', 'C03_terminates_strong', 'C03_terminates_strong_silent', 'C03_tops_accounted', 'guard_never_static', 'guard_never_stackBound', 'C03_stack_bound', 'C03_terminates_static', 'C03_terminates_static_silent']]
 LEAN_MODULES = LEAN_MODULES + ['AsynqModel.Theorems.C03f']
 THEOREMS = THEOREMS + ["AsynqModel.Core." + n for n in ['C03_terminates_guard', 'C03_terminates_guard_silent', 'C03_terminates_any', 'C03_measure_decreases_any', 'C03_terminates_nonasync', 'C03_terminates_nonasync_silent', 'C03_terminates_nonasync_nofail', 'C03f_guard_needed_for_orphans']]
+LEAN_MODULES = LEAN_MODULES + ['AsynqModel.Theorems.NoNA']
+THEOREMS = THEOREMS + ["AsynqModel.Core." + n for n in ['Spec_C03_accepts_order_any', 'Spec_C03_only_ret_any', 'C03_order_invariant_any']]
 MIX = [('yield',3),('yield_err',2),('full',2),('sync',1)]
 RULE = ("grammar-generated task programs (profiles %s; trees and DAGs of tasks, 1-3 batch kinds with priority overrides "
         "and raising flushes, nested yield structures, errors, try/except, synchronous re-entry, contexts) interpreted on "
